@@ -155,10 +155,10 @@ pub(crate) fn stub_client_proof_custom(
     g: Generator,
 ) -> Proof {
     verif_oracle::bump(4);
-    let (nb, _) = name_bytes(name);
+    let (nb, nl) = name_bytes(name);
     let o = verif_oracle::uf(
         verif_oracle::USER + 4,
-        &[k.as_le_bytes(), a.as_le_bytes(), b.as_le_bytes(), salt.as_le_bytes(), n.as_le_bytes(), &[g.as_u8()], &nb, &[name.as_ref().len() as u8]],
+        &[k.as_le_bytes(), a.as_le_bytes(), b.as_le_bytes(), salt.as_le_bytes(), n.as_le_bytes(), &[g.as_u8()], &nb, &[nl as u8]],
     );
     Proof::from_le_bytes(out20(&o))
 }
